@@ -26,7 +26,8 @@ META = {
         'cannot fail for want of a branch.  Also: no dump function is memoised on its argument (equal values of different kinds have different texts); the ZINC escape pair (shared with C08.D1) and the exact JSON time conversion (shared with C05) keep both transcoding legs lossless.  Not decided: loss-freeness and idempotence as executions; whether '
         'timezone_name finds a zone for a parser-made fixed-offset tzinfo (tz database; its exception discipline is '
         'C17.D3).'
-        ' Also (D3): both readers convert a stamp INTO the named zone (date-time API rule and zone_applied shared with C17.D2); the empty display string of a reference survives either format.'),
+        ' Also (D3): both readers convert a stamp INTO the named zone (date-time API rule and zone_applied shared with C17.D2); the empty display string of a reference survives either format.'
+        ' Also (D2): a memoised text function is not handed an unhashable str subclass (Bin).  (D3) the written zone label is timezone_name(value) on every path.'),
     'rule_text': 'obligations = dumper functions x purity, determinism scan, gate comparisons, reader kinds x ladders',
     'trusted_base': ['dict preserves insertion order (CPython >= 3.7); json.dumps is deterministic for a given object'],
 }
@@ -85,7 +86,7 @@ def run(ctx):
     # lossless transcoding of date-times: both readers convert the stamp INTO the named zone (astimezone keeps the
     # instant); a reader that re-labels the wall clock instead disagrees with the other format (shared with C17.D2)
     from . import c17
-    c17._api(ctx, m, rule='C07.D3', only=('zincparser', 'jsonparser'))
+    c17._api(ctx, m, rule='C07.D3', only=('zincparser', 'jsonparser', 'zincdumper', 'jsondumper'))
     c17.zone_applied(ctx, m, 'C07.D3', 'zincparser', '_parse_datetime', 'zinc')
     c17.zone_applied(ctx, m, 'C07.D3', 'jsonparser', 'parse_embedded_scalar', 'json')
     # the empty display string of a reference survives either format (shared with C08)
@@ -124,6 +125,44 @@ class _Quiet(object):
 TEXT_ONLY = ('dump_str', 'dump_uri', 'dump_id', 'str_sub', 'uri_sub', 'ctrl_sub')
 
 
+def _unhashable_callers(ctx, fn, F):
+    """[(caller, class)]: writer functions of the same module that pass their own value argument to `fn`, where the
+    scalar ladder routes values of `class` to that caller and `class` (datatypes.py) defines __eq__ but not __hash__"""
+    m = ctx.model
+    modname = F.split('/')[-1][:-3]
+    try:
+        mod = m.mod(modname)
+        dmod = m.mod('datatypes')
+        ladder = m.func(modname, 'dump_scalar', 'nested')
+    except AnalysisError:
+        return []
+    unhashable = set()
+    for c in ast.walk(dmod.tree):
+        if isinstance(c, ast.ClassDef):
+            names = {x.name for x in c.body if isinstance(x, ast.FunctionDef)}
+            assigned = {t.id for x in c.body if isinstance(x, ast.Assign) for t in x.targets if isinstance(t, ast.Name)}
+            if '__eq__' in names and '__hash__' not in names and '__hash__' not in assigned:
+                unhashable.add(c.name)
+    routed = {}
+    for n in ast.walk(ladder):
+        if isinstance(n, ast.If) and isinstance(n.test, ast.Call) and norm(n.test.func) == 'isinstance' and len(n.test.args) == 2:
+            cls = norm(n.test.args[1])
+            for r in n.body:
+                if isinstance(r, ast.Return) and isinstance(r.value, ast.Call) and isinstance(r.value.func, ast.Name):
+                    routed.setdefault(r.value.func.id, set()).add(cls)
+    out = []
+    for g in [x for x in mod.tree.body if isinstance(x, ast.FunctionDef) and x is not fn]:
+        if not g.args.args:
+            continue
+        p0 = g.args.args[0].arg
+        for c in ast.walk(g):
+            if isinstance(c, ast.Call) and isinstance(c.func, ast.Name) and c.func.id == fn.name and c.args and norm(c.args[0]) == p0:
+                for cls in sorted(routed.get(g.name, ())):
+                    if cls in unhashable:
+                        out.append((g.name, cls))
+    return out
+
+
 def _not_memoised(ctx, fn, F):
     """a dump function memoised on its argument answers for every value that is == to an earlier one: 1, 1.0 and True
     are equal and hash alike, aware date-times compare by instant -- the text of a value would depend on what was
@@ -132,6 +171,18 @@ def _not_memoised(ctx, fn, F):
         dn = (norm(d.func) if isinstance(d, ast.Call) else norm(d)).split('.')[-1]
         if dn in ('lru_cache', 'cache', 'memoize', 'memoized', 'cached'):
             if fn.name in TEXT_ONLY:
+                # ... provided every value handed to it can be hashed: a str SUBCLASS that defines __eq__ without __hash__
+                # (Python then sets __hash__ to None) cannot be a cache key
+                bad = _unhashable_callers(ctx, fn, F)
+                if bad:
+                    caller, cls = bad[0]
+                    ctx.violation('C07.D2', '%s::%s' % (F, fn.name), '@' + norm(d),
+                                  'a grid holding a %s, written by %s through %s: %s defines __eq__ and no __hash__, so the cache '
+                                  'look-up raises TypeError (unhashable type) -- a grid that was parsed cannot be dumped again'
+                                  % (cls, caller, fn.name, cls),
+                                  '%s is memoised, and %s hands it a %s, which is not hashable' % (fn.name, caller, cls),
+                                  file=F, line=fn.lineno, engine='E7')
+                    continue
                 ctx.ob('C07.D2', '%s is memoised on text arguments only (string equality is exact)' % fn.name, True,
                        '%s:%d' % (F, fn.lineno))
             else:
